@@ -76,6 +76,10 @@ type Machine struct {
 	poisonedG             map[*ssa.Global]string
 	gWritten              map[*ssa.Global]bool
 	initDepth             int
+	hb                    *hbState
+	raceSites             []token.Pos
+	visibleStr            map[string]bool
+	atomicAccess          bool
 	preemptBound          int
 	lastEnabledForPreempt bool
 }
@@ -707,6 +711,9 @@ func (m *Machine) exec(fr *Frame, in ssa.Instruction, isInit bool) {
 			fr.env[x] = SlotPtr{&v}
 		}
 	case *ssa.Store:
+		if m.visibleStr != nil && m.events != nil && m.visibleStr[m.prog.Fset.Position(m.lastPos).String()] {
+			m.park(&Op{kind: opAtomic})
+		}
 		m.store(m.get(fr, x.Addr), m.get(fr, x.Val))
 		if g, ok := x.Addr.(*ssa.Global); ok && m.initDepth > 0 {
 			if m.gWritten == nil {
@@ -715,6 +722,9 @@ func (m *Machine) exec(fr *Frame, in ssa.Instruction, isInit bool) {
 			m.gWritten[g] = true
 		}
 	case *ssa.UnOp:
+		if m.visibleStr != nil && x.Op == token.MUL && m.events != nil && m.visibleStr[m.prog.Fset.Position(m.lastPos).String()] {
+			m.park(&Op{kind: opAtomic})
+		}
 		fr.env[x] = m.unop(fr, x)
 	case *ssa.BinOp:
 		fr.env[x] = m.binop(x.Op, m.get(fr, x.X), m.get(fr, x.Y), x.X.Type())
@@ -803,6 +813,9 @@ func (m *Machine) exec(fr *Frame, in ssa.Instruction, isInit bool) {
 			m.require(False, "panic", "assignment to entry in nil map")
 		}
 		mo := m.get(fr, x.Map).(*MapObj)
+		if m.hb != nil {
+			m.hbMem(mo, true, false)
+		}
 		k := m.get(fr, x.Key)
 		i := m.mapFind(mo, k)
 		if i < 0 {
@@ -824,6 +837,9 @@ func (m *Machine) exec(fr *Frame, in ssa.Instruction, isInit bool) {
 				fr.env[x] = v
 			}
 		case *MapObj:
+			if m.hb != nil {
+				m.hbMem(a, false, false)
+			}
 			i := m.mapFind(a, m.get(fr, x.Index))
 			var v Value
 			if i >= 0 {
@@ -872,6 +888,8 @@ func (m *Machine) exec(fr *Frame, in ssa.Instruction, isInit bool) {
 		m.spawn(func() { m.callValue(fv, cc, args) }, "g@"+shortPos(m, x.Pos()))
 	case *ssa.Range:
 		switch c := m.get(fr, x.X).(type) {
+		case String:
+			fr.env[x] = &strIter{s: c, pos: BV(64, 0)}
 		case NilPtr:
 			fr.env[x] = &mapIter{m: &MapObj{}}
 		case *MapObj:
@@ -881,6 +899,20 @@ func (m *Machine) exec(fr *Frame, in ssa.Instruction, isInit bool) {
 			panic(fmt.Sprintf("range over %T", c))
 		}
 	case *ssa.Next:
+		if si, ok := m.get(fr, x.Iter).(*strIter); ok {
+			// range over a string: ASCII only (a byte >= 0x80 would need UTF-8 decoding)
+			if m.branch(Cmp("bvslt", si.pos, si.s.len)) {
+				b := readHist(si.s.h, Bin("bvadd", si.s.off, si.pos))
+				if !m.branch(Cmp("bvult", b, BV(8, 0x80))) {
+					panic(pathEnd{"unwind: non-ASCII byte in a range over a string (UTF-8 decoding is not modelled)"})
+				}
+				fr.env[x] = Tuple{True, si.pos, ZExt(b, 32)}
+				si.pos = Bin("bvadd", si.pos, BV(64, 1))
+			} else {
+				fr.env[x] = Tuple{False, BV(64, 0), BV(32, 0)}
+			}
+			break
+		}
 		it := m.get(fr, x.Iter).(*mapIter)
 		if it.i < len(it.m.keys) {
 			fr.env[x] = Tuple{True, it.m.keys[it.i], copyVal(it.m.vals[it.i])}
@@ -905,6 +937,11 @@ func (m *Machine) idx64(t *Term, ty types.Type) *Term {
 }
 
 func (m *Machine) store(addr, v Value) {
+	if m.hb != nil {
+		if k := hbKeyOf(addr); k != nil {
+			m.hbMem(k, true, m.atomicAccess)
+		}
+	}
 	switch p := addr.(type) {
 	case SlotPtr:
 		storeInto(p.p, v)
@@ -923,6 +960,11 @@ func (m *Machine) store(addr, v Value) {
 }
 
 func (m *Machine) load(addr Value) Value {
+	if m.hb != nil {
+		if k := hbKeyOf(addr); k != nil {
+			m.hbMem(k, false, m.atomicAccess)
+		}
+	}
 	switch p := addr.(type) {
 	case SlotPtr:
 		return copyVal(*p.p)
@@ -1336,8 +1378,13 @@ func (m *Machine) convert(v Value, from, to types.Type) Value {
 	fu, tu := from.Underlying(), to.Underlying()
 	if t, ok := v.(*Term); ok {
 		if tb, ok := tu.(*types.Basic); ok && tb.Kind() == types.String {
-			// string(rune) not supported
-			panic("convert int->string")
+			// string(rune): ASCII only
+			if !m.branch(Cmp("bvult", ZExt(t, 64), BV(64, 0x80))) {
+				panic(pathEnd{"unwind: string(rune) of a non-ASCII rune (UTF-8 encoding is not modelled)"})
+			}
+			st := newFlat(1)
+			st.flat[0] = Extract(7, 0, t)
+			return String{h: st.snapshot(), off: BV(64, 0), len: BV(64, 1), maxLen: 1}
 		}
 		w := width(to)
 		if w <= 0 {
@@ -1395,6 +1442,11 @@ func describe(v Value) string {
 		return fmt.Sprintf("t%d", x.id)
 	}
 	return strings.TrimPrefix(fmt.Sprintf("%T", v), "main.")
+}
+
+type strIter struct {
+	s   String
+	pos *Term
 }
 
 type mapIter struct {
